@@ -20,7 +20,7 @@ import (
 	"github.com/flamego/flamego/verifharness/internal/rt"
 )
 
-const rule = "case = a handler stack: 0..3 application middleware, 0..2 nested groups with 0..2 handlers each, 1..3 route handlers and an optional final action; each handler is a straight-line program of 0..4 operations over {write a status, write body bytes, Next(), Next() under a recover, cancel the request context, panic} plus an optional return value (non-empty string, empty string, nil error, non-nil error). " +
+const rule = "case = a handler stack: 0..3 application middleware, 0..2 nested groups with 0..2 handlers each, 1..3 route handlers and an optional final action; each handler is a straight-line program of 0..4 operations over {write a status, write body bytes (Write or io.Copy; the underlying writer with or without io.ReaderFrom), Next(), Next() under a recover, cancel the request context, panic} plus an optional return value (non-empty string, empty string, nil error, non-nil error). " +
 	"Oracle: the trace of enter/next/back/exit events, final status and body must equal those of a cursor interpreter written from the statement (cursor = next handler not yet started); plus model-free invariants on the real trace: handlers are entered as 0,1,2,... without gap or repetition, and enter/exit events nest like calls. " +
 	"non-trivial = a program with a Next() issued after a write or cancel, or >=2 Next() in one handler, or a write inside a handler reached through Next(), or a chain that reaches a nil action, or a panic crossing a recovering Next(); distinct by case text"
 
@@ -31,7 +31,7 @@ var assumptions = []string{
 
 func TestMain(m *testing.M) { evid.Main(m, "C03", rule, assumptions) }
 
-// H is one handler program. Ops: "s<code>" write status, "b" write body,
+// H is one handler program. Ops: "s<code>" write status, "b" write body, "bc" the same through io.Copy,
 // "n" Next, "r" Next under recover, "c" cancel, "d" install a derived request
 // context and cancel that, "p" panic.
 // Ret: "" none, "str", "empty", "nilerr", "err".
@@ -52,6 +52,23 @@ type Case struct {
 	// test: their handlers must never show up in its chain.
 	SiblingsBefore int `json:"siblings_before,omitempty"`
 	SiblingsAfter  int `json:"siblings_after,omitempty"`
+	// ReaderFrom: the writer handed to ServeHTTP also implements io.ReaderFrom,
+	// as the one of net/http does.
+	ReaderFrom bool `json:"reader_from,omitempty"`
+}
+
+// onlyReader hides WriterTo so that io.Copy goes for the writer's ReadFrom.
+type onlyReader struct{ io.Reader }
+
+// rfRecorder adds io.ReaderFrom to the recorder, behaving as net/http's
+// response does: the status line goes out with the first byte.
+type rfRecorder struct{ *httptest.ResponseRecorder }
+
+func (r rfRecorder) ReadFrom(src io.Reader) (int64, error) {
+	if r.Code == 0 {
+		r.WriteHeader(200)
+	}
+	return io.Copy(struct{ io.Writer }{r.ResponseRecorder}, src)
 }
 
 func (c Case) flat() []H {
@@ -127,7 +144,7 @@ func (m *interp) exec(i int, h *H) {
 			var code int
 			fmt.Sscanf(op[1:], "%d", &code)
 			m.write(code, "")
-		case op == "b":
+		case op == "b" || op == "bc":
 			m.write(200, fmt.Sprintf("h%d;", i))
 		case op == "n":
 			m.ev("next %d", i)
@@ -206,6 +223,8 @@ func real(c Case) (res result) {
 					ctx.ResponseWriter().WriteHeader(code)
 				case op == "b":
 					_, _ = ctx.ResponseWriter().Write([]byte(fmt.Sprintf("h%d;", i)))
+				case op == "bc":
+					_, _ = io.Copy(ctx.ResponseWriter(), onlyReader{strings.NewReader(fmt.Sprintf("h%d;", i))})
 				case op == "n":
 					ev("next %d", i)
 					ctx.Next()
@@ -312,7 +331,11 @@ func real(c Case) (res result) {
 				res.Escaped = true
 			}
 		}()
-		f.ServeHTTP(rec, req)
+		if c.ReaderFrom {
+			f.ServeHTTP(rfRecorder{rec}, req)
+		} else {
+			f.ServeHTTP(rec, req)
+		}
 	}()
 	res.Trace = trace
 	res.Status = rec.Code
@@ -348,8 +371,11 @@ func checkCase(c Case) (out evid.Outcome) {
 					out.NonTrivial = true
 					out.Classes = append(out.Classes, "next-after-write-or-cancel")
 				}
-			case op == "b" || op[0] == 's' || op == "c" || op == "d":
+			case op == "b" || op == "bc" || op[0] == 's' || op == "c" || op == "d":
 				seenWriteOrCancel = true
+				if op == "bc" {
+					out.Classes = append(out.Classes, "body-streamed-with-io.Copy")
+				}
 			}
 		}
 		if nn >= 2 {
@@ -481,8 +507,10 @@ func genH(t *rapid.T) H {
 			h.Ops = append(h.Ops, "n")
 		case k < 9:
 			h.Ops = append(h.Ops, "r")
-		case k < 13:
+		case k < 12:
 			h.Ops = append(h.Ops, "b")
+		case k < 13:
+			h.Ops = append(h.Ops, "bc")
 		case k < 16:
 			h.Ops = append(h.Ops, fmt.Sprintf("s%d", []int{200, 201, 204, 302, 404, 500}[rapid.IntRange(0, 5).Draw(t, "code")]))
 		case k < 17:
@@ -519,6 +547,7 @@ func genCase(t *rapid.T) Case {
 	c.Method = []string{"GET", "GET", "HEAD"}[rapid.IntRange(0, 2).Draw(t, "method")]
 	c.SiblingsBefore = rapid.IntRange(0, 2).Draw(t, "sibbefore")
 	c.SiblingsAfter = rapid.IntRange(0, 2).Draw(t, "sibafter")
+	c.ReaderFrom = rapid.Bool().Draw(t, "readerfrom")
 	return c
 }
 
